@@ -371,7 +371,17 @@ def h_missing_slice(ctx, d, n):
     Y = _with_stubs(ctx, lambda: teneva.als(np.array(I), y, Y0, nswp=1, e=None, allow_skip_cores=True))
     ctx.claim('allowed_skip_keeps_shape', well_formed(Y, [n] * d))
     ctx.claim('uncovered_slice_kept', ctx.all_eq(Y[0][:, 1, :], Y0[0][:, 1, :]))
-    # a missing slice that is not the last one of its mode
+    # a missing slice that is not the last one of its mode, explicitly allowed: the fit does not depend
+    # on how the slices are labelled (relabelling mode 0 so that the uncovered slice is the last one)
+    Im = [tuple([1] * d), tuple([1] * (d - 1) + [0])]
+    Ir = [tuple([0] + list(i[1:])) for i in Im]
+    Y0r = [G.copy() for G in Y0]
+    Y0r[0] = Y0[0][:, ::-1, :].copy()
+    Ya = _with_stubs(ctx, lambda: teneva.als(np.array(Im), y, Y0, nswp=1, e=None, allow_skip_cores=True))
+    Yb = _with_stubs(ctx, lambda: teneva.als(np.array(Ir), y, Y0r, nswp=1, e=None, allow_skip_cores=True))
+    ctx.claim('allowed_skip_independent_of_slice_labels', bool(ctx.all_eq(Ya[0], Yb[0][:, ::-1, :])) and
+              all(bool(ctx.all_eq(a, b)) for a, b in zip(Ya[1:], Yb[1:])))
+    ctx.claim('uncovered_first_slice_kept', ctx.all_eq(Ya[0][:, 0, :], Y0[0][:, 0, :]))
     I2 = [tuple([1] * d), tuple([1] * (d - 1) + [0])]
     _with_stubs(ctx, lambda: ctx.raises(ValueError, 'missing_first_slice_rejected', teneva.als, np.array(I2), y, Y0, 1))
     w = vec(ctx, 'w', 2)
